@@ -367,6 +367,13 @@ func c17Struct(c *core.Ctx, r *core.RNG, k int) {
 	if err != nil || !bytes.Equal(j1, j2) {
 		c.Violate("C17|struct|"+name+"|reencode-differs", "second encoding differs (%v)\n %s\n %s", err, short(string(j1), 400), short(string(j2), 400))
 	}
+	// the same value passed to the encoder by value (not addressable) and inside a wrapper gives the same JSON
+	if jv, err := json.Marshal(reflect.ValueOf(v).Elem().Interface()); err != nil || !bytes.Equal(jv, j1) {
+		c.Violate("C17|struct|"+name+"|by-value-differs", "json.Marshal(x) and json.Marshal(&x) differ (%v)\n by value   %s\n by pointer %s", err, short(string(jv), 400), short(string(j1), 400))
+	}
+	if jw, err := json.Marshal(map[string]interface{}{"k": reflect.ValueOf(v).Elem().Interface()}); err != nil || !bytes.Equal(jw, append(append([]byte(`{"k":`), j1...), '}')) {
+		c.Violate("C17|struct|"+name+"|by-value-differs", "the value inside a map encodes differently (%v): %s", err, short(string(jw), 400))
+	}
 	p := pat.String()
 	if len(p) > 12 {
 		p = p[:12]
@@ -597,6 +604,25 @@ func runC17(c *core.Ctx) {
 				var g backend.HEXBytes
 				if err := g.UnmarshalText([]byte(in)); err != nil || !bytes.Equal(g, b) {
 					c.Violate("C17|hexbytes|unmarshal", "%q -> %x %v", in, []byte(g), err)
+				}
+			}
+			// a byte string decoded earlier and kept by value is not overwritten by the next decode into the same variable
+			{
+				var g backend.HEXBytes
+				first := r.Bytes(ln + r.Intn(8))
+				if g.UnmarshalText([]byte(hex.EncodeToString(first))) == nil {
+					kept := g
+					g.UnmarshalText([]byte(hex.EncodeToString(b)))
+					if !bytes.Equal(kept, first) {
+						c.Violate("C17|hexbytes|kept-copy-changed", "HEXBytes decoded from %x and kept by value reads %x after the same variable decoded %x", first, []byte(kept), b)
+					}
+					if ln > 0 {
+						g[0] ^= 0xff // and a decoded value is the caller's to modify: a later decode of the same text is unaffected
+						var g2 backend.HEXBytes
+						if g2.UnmarshalText([]byte(hex.EncodeToString(b))) != nil || !bytes.Equal(g2, b) {
+							c.Violate("C17|hexbytes|decode-shared", "decoding %x again after the first result was modified gives %x", b, []byte(g2))
+						}
+					}
 				}
 			}
 			j, _ := json.Marshal(struct{ A backend.HEXBytes }{hb})
